@@ -73,6 +73,17 @@ CLAIMS = {
               "rejects. Bounded-exhaustive over trees and token sequences is the right level: a changed binding power "
               "or associativity alters only the pairings it affects, all of which are enumerated.",
               "DESIGN.md section 6 C11", "TLA+ reference grammar (printer + precedence-climbing parser); TLC-enumerated trees and token sequences parsed for real"),
+    "C12": _c("model_checking",
+              "Lexer.tla is the lexer as a state machine (one action per state function of state.go over the lexer "
+              "structure of lexer.go) and Lexical.tla the lexical reference (what a quoted literal denotes, what a number "
+              "spelling denotes, where each token of a laid-out sequence starts). TLC runs the machine on every text of "
+              "eight families and checks in every state that the tracked location is the position computed from the text "
+              "alone (LocInv), that every token's location is the position of its first rune (TokenLocInv), and that the "
+              "machine yields what the reference assigns on all literals and layouts (Agrees, QuoteInverts). Every text "
+              "is then given to the real lexer.Lex and parser.Parse: token kinds, byte-exact values, positions and literal "
+              "values must be the specified ones. Bounded-exhaustive over values x spellings x layouts is the right "
+              "level: a misclassified spelling or a wrongly decoded escape affects only the values it concerns.",
+              "DESIGN.md section 6 C12", "TLA+ lexer machine + lexical reference; TLC invariants; every enumerated text lexed and parsed for real"),
     "C14": _c("model_checking",
               "Prim!Arith is the promotion rule of the property; TLC enumerates every pair of the 12 numeric kinds x every "
               "arithmetic/comparison operator x 1-3 values per kind (extrema included), plus nested random combinations; the "
